@@ -198,3 +198,5 @@ func zlibTrailer(p []byte) []byte {
 	c := adler32.Checksum(p)
 	return []byte{byte(c >> 24), byte(c >> 16), byte(c >> 8), byte(c)}
 }
+
+func gzHdr(name string) stdgzip.Header { return stdgzip.Header{Name: name} }
